@@ -405,7 +405,13 @@ def generate(ctx, names, nsums, pyobject=None):
             if isinstance(t, str):
                 rec['frags'].append((t, call.lineno))
         return Opaque('TreeFragment()')
-    ev = Ev({r: list(entries) for r in roots}, hooks={SUMFN: hook_sum, 'TreeFragment': hook_fragment})
+    env = {r: list(entries) for r in roots}
+    if 'node' not in env:
+        # the class's own symbol table holds a subset of the members: with two or more members the first one is modelled as inherited
+        # from a base type (all_members is collected over the whole base chain, node.scope.var_entries only has the class's own) - a
+        # checksum or state computed from the own entries misses a layout change of the base (seed C29o)
+        env['node'] = Fake('node', scope=Fake('node.scope', var_entries=list(entries[1:] if len(entries) > 1 else entries)))
+    ev = Ev(env, hooks={SUMFN: hook_sum, 'TreeFragment': hook_fragment})
     try:
         ev.block(block)
     except EvalError as ex:
